@@ -127,47 +127,229 @@ theorem nodup_dedupRenames (l : List Rename) : ((dedupRenames l).map (·.name)).
 theorem dedupRenames_idem (l : List Rename) : dedupRenames (dedupRenames l) = dedupRenames l :=
   dedupRenames_of_nodup (nodup_dedupRenames l)
 
-/-- the fold of `get_renames_for_einsum` over the top-level list -/
-theorem getRenames_fold (rs : List EinsumRename) (acc : EinsumRename) :
-    let r := rs.foldl (fun acc er =>
-      if er.name != "default" then acc else
-        { acc with tensorAccesses := mergeInto acc.tensorAccesses er.tensorAccesses,
-                   rankVariables := mergeInto acc.rankVariables er.rankVariables }) acc
-    r.tensorAccesses = mergeInto acc.tensorAccesses (topT rs "default") ∧
-    r.rankVariables = mergeInto acc.rankVariables (topR rs "default") := by
-  induction rs generalizing acc with
-  | nil => simp [topT, topR, mergeInto_nil]
+/-! ## `get_renames_for_einsum` (entries named like the Einsum, then "default"; `taken` per entry) -/
+
+theorem find_filter_of_imp {l : List Rename} {p : Rename → Bool} {n : Name}
+    (h : ∀ r ∈ l, r.name = n → p r = true) :
+    (l.filter p).find? (fun r => r.name == n) = l.find? (fun r => r.name == n) := by
+  induction l with
+  | nil => rfl
+  | cons r rest ih =>
+    have ih' := ih (fun x hx => h x (List.mem_cons_of_mem _ hx))
+    by_cases hrn : r.name = n
+    · have hp : p r = true := h r (by simp) hrn
+      simp [List.filter_cons, hp, List.find?_cons, hrn]
+    · have hb : (r.name == n) = false := by simpa using hrn
+      by_cases hp : p r = true
+      · simp [List.filter_cons, hp, List.find?_cons, hb, ih']
+      · simp [List.filter_cons, hp, List.find?_cons, hb, ih']
+
+theorem find_filter_none {l : List Rename} {p : Rename → Bool} {n : Name}
+    (h : ∀ r ∈ l, r.name = n → p r = false) :
+    (l.filter p).find? (fun r => r.name == n) = none := by
+  rw [List.find?_eq_none]
+  intro r hr
+  obtain ⟨hr1, hr2⟩ := List.mem_filter.mp hr
+  intro hn
+  have := h r hr1 (by simpa using hn)
+  simp [this] at hr2
+
+/-- the definition of `n` merged so far: tensor renames are looked at first -/
+def foundIn (n : Name) (acc : EinsumRename) : Option Rename :=
+  (acc.tensorAccesses.find? (fun r => r.name == n)).or (acc.rankVariables.find? (fun r => r.name == n))
+
+theorem find_none_of_hasName_false {l : List Rename} {n : Name} (h : hasName l n = false) :
+    l.find? (fun r => r.name == n) = none := by
+  rw [List.find?_eq_none]
+  intro r hr hn
+  have : hasName l n = true := hasName_iff.mpr ⟨r, hr, by simpa using hn⟩
+  simp [h] at this
+
+theorem foundIn_mergeEntry (acc er : EinsumRename) (n : Name) :
+    foundIn n (mergeEntry acc er) =
+      (foundIn n acc).or ((er.tensorAccesses ++ er.rankVariables).find? (fun r => r.name == n)) := by
+  simp only [foundIn, mergeEntry, List.find?_append]
+  cases hk : hasName (acc.tensorAccesses ++ acc.rankVariables) n with
+  | true =>
+    have h1 : (List.filter (fun r => !hasName (acc.tensorAccesses ++ acc.rankVariables) r.name)
+        er.tensorAccesses).find? (fun r => r.name == n) = none :=
+      find_filter_none (fun r _ hn => by simp [hn, hk])
+    have h2 : (List.filter (fun r => !hasName (acc.tensorAccesses ++ acc.rankVariables) r.name)
+        er.rankVariables).find? (fun r => r.name == n) = none :=
+      find_filter_none (fun r _ hn => by simp [hn, hk])
+    rw [h1, h2]
+    obtain ⟨q, hq, hqn⟩ := hasName_iff.mp hk
+    have hsome : ((acc.tensorAccesses.find? (fun r => r.name == n)).or
+        (acc.rankVariables.find? (fun r => r.name == n))).isSome = true := by
+      rw [← List.find?_append, List.find?_isSome]
+      exact ⟨q, hq, by simpa using hqn⟩
+    cases hf : (acc.tensorAccesses.find? (fun r => r.name == n)).or
+        (acc.rankVariables.find? (fun r => r.name == n)) with
+    | none => simp [hf] at hsome
+    | some x => simp [hf]
+  | false =>
+    rw [hasName_append, Bool.or_eq_false_iff] at hk
+    have h1 : (List.filter (fun r => !hasName (acc.tensorAccesses ++ acc.rankVariables) r.name)
+        er.tensorAccesses).find? (fun r => r.name == n) = er.tensorAccesses.find? (fun r => r.name == n) :=
+      find_filter_of_imp (fun r _ hn => by simp [hn, hasName_append, hk.1, hk.2])
+    have h2 : (List.filter (fun r => !hasName (acc.tensorAccesses ++ acc.rankVariables) r.name)
+        er.rankVariables).find? (fun r => r.name == n) = er.rankVariables.find? (fun r => r.name == n) :=
+      find_filter_of_imp (fun r _ hn => by simp [hn, hasName_append, hk.1, hk.2])
+    rw [h1, h2, find_none_of_hasName_false hk.1, find_none_of_hasName_false hk.2]
+    simp
+
+theorem foundIn_foldl (entries : List EinsumRename) (acc : EinsumRename) (n : Name) :
+    foundIn n (entries.foldl mergeEntry acc) =
+      (foundIn n acc).or ((entries.flatMap (fun er => er.tensorAccesses ++ er.rankVariables)).find?
+        (fun r => r.name == n)) := by
+  induction entries generalizing acc with
+  | nil => simp
   | cons er rest ih =>
+    rw [List.foldl_cons, ih, foundIn_mergeEntry, List.flatMap_cons, Option.or_assoc]
+    simp only [List.find?_append]
+
+/-- **which definition `get_renames_for_einsum` keeps** -/
+theorem foundIn_getRenames (rs : List EinsumRename) (e n : Name) :
+    foundIn n (getRenamesForEinsum rs e) =
+      ((topLevelFor rs e).find? (fun r => r.name == n)).or
+        ((topLevelFor rs "default").find? (fun r => r.name == n)) := by
+  simp only [getRenamesForEinsum, foundIn_foldl, topLevelFor]
+  simp [foundIn, Option.or_assoc]
+
+/-! ## whole-list form, when no name is used in both kinds -/
+
+/-- `dst` followed by the elements of `l` whose name `dst` does not have yet -/
+def mergeT (a l : List Rename) : List Rename := a ++ l.filter (fun r => !hasName a r.name)
+
+theorem dedupRenames_filter_name (q : Name → Bool) (l : List Rename) :
+    dedupRenames (l.filter (fun r => q r.name)) = (dedupRenames l).filter (fun r => q r.name) := by
+  induction l with
+  | nil => rfl
+  | cons r rest ih =>
+    by_cases hq : q r.name = true
+    · simp only [List.filter_cons, hq, if_true, dedupRenames, ih, List.filter_filter]
+      congr 1
+      apply List.filter_congr
+      intro x _
+      exact Bool.and_comm _ _
+    · have hq' : q r.name = false := by simpa using hq
+      simp only [List.filter_cons, hq', Bool.false_eq_true, if_false, dedupRenames, ih,
+        List.filter_filter]
+      apply List.filter_congr
+      intro x _
+      by_cases hx : x.name = r.name
+      · simp [hx, hq']
+      · simp [hx]
+
+theorem dedupRenames_congr_left {x x' : List Rename} (y : List Rename)
+    (h : dedupRenames x = dedupRenames x') : dedupRenames (x ++ y) = dedupRenames (x' ++ y) := by
+  rw [dedupRenames_append, dedupRenames_append, h]
+  congr 1
+  apply List.filter_congr
+  intro r _
+  rw [← hasName_dedupRenames x, ← hasName_dedupRenames x', h]
+
+theorem dedupRenames_congr_right (x : List Rename) {y y' : List Rename}
+    (h : dedupRenames y = dedupRenames y') : dedupRenames (x ++ y) = dedupRenames (x ++ y') := by
+  rw [dedupRenames_append, dedupRenames_append, h]
+
+theorem dedupRenames_mergeT (a l : List Rename) : dedupRenames (mergeT a l) = dedupRenames (a ++ l) := by
+  rw [mergeT, dedupRenames_append, dedupRenames_append,
+    dedupRenames_filter_name (fun n => !hasName a n), List.filter_filter]
+  congr 1
+  apply List.filter_congr
+  intro x _
+  simp
+
+theorem dedupRenames_foldl_mergeT (f : EinsumRename → List Rename) (entries : List EinsumRename)
+    (a0 : List Rename) :
+    dedupRenames (entries.foldl (fun a er => mergeT a (f er)) a0) =
+      dedupRenames (a0 ++ entries.flatMap f) := by
+  induction entries generalizing a0 with
+  | nil => simp
+  | cons er rest ih =>
+    rw [List.foldl_cons, ih, List.flatMap_cons, ← List.append_assoc]
+    exact dedupRenames_congr_left _ (dedupRenames_mergeT a0 (f er))
+
+/-- everything merged so far comes from the top-level list, kind by kind -/
+def FromRs (rs : List EinsumRename) (acc : EinsumRename) : Prop :=
+  (∀ r ∈ acc.tensorAccesses, ∃ er ∈ rs, r ∈ er.tensorAccesses) ∧
+  (∀ r ∈ acc.rankVariables, ∃ er ∈ rs, r ∈ er.rankVariables)
+
+theorem mergeEntry_kindsDisjoint {rs : List EinsumRename} (hkd : KindsDisjoint rs)
+    {acc er : EinsumRename} (her : er ∈ rs) (hacc : FromRs rs acc) :
+    (mergeEntry acc er).tensorAccesses = mergeT acc.tensorAccesses er.tensorAccesses ∧
+    (mergeEntry acc er).rankVariables = mergeT acc.rankVariables er.rankVariables ∧
+    FromRs rs (mergeEntry acc er) := by
+  have hT : ∀ r ∈ er.tensorAccesses, hasName acc.rankVariables r.name = false := by
+    intro r hr
+    rw [Bool.eq_false_iff]
+    intro h
+    obtain ⟨q, hq, hqn⟩ := hasName_iff.mp h
+    obtain ⟨er2, her2, hq2⟩ := hacc.2 q hq
+    exact hkd er her er2 her2 r hr q hq2 hqn.symm
+  have hR : ∀ r ∈ er.rankVariables, hasName acc.tensorAccesses r.name = false := by
+    intro r hr
+    rw [Bool.eq_false_iff]
+    intro h
+    obtain ⟨q, hq, hqn⟩ := hasName_iff.mp h
+    obtain ⟨er1, her1, hq1⟩ := hacc.1 q hq
+    exact hkd er1 her1 er her q hq1 r hr hqn
+  refine ⟨?_, ?_, ?_, ?_⟩
+  · simp only [mergeEntry, mergeT]
+    congr 1
+    apply List.filter_congr
+    intro r hr
+    simp [hasName_append, hT r hr]
+  · simp only [mergeEntry, mergeT]
+    congr 1
+    apply List.filter_congr
+    intro r hr
+    simp [hasName_append, hR r hr]
+  · intro r hr
+    simp only [mergeEntry, List.mem_append, List.mem_filter] at hr
+    rcases hr with hr | ⟨hr, _⟩
+    · exact hacc.1 r hr
+    · exact ⟨er, her, hr⟩
+  · intro r hr
+    simp only [mergeEntry, List.mem_append, List.mem_filter] at hr
+    rcases hr with hr | ⟨hr, _⟩
+    · exact hacc.2 r hr
+    · exact ⟨er, her, hr⟩
+
+theorem foldl_mergeEntry_kindsDisjoint {rs : List EinsumRename} (hkd : KindsDisjoint rs)
+    (entries : List EinsumRename) (hsub : ∀ er ∈ entries, er ∈ rs) (acc : EinsumRename)
+    (hacc : FromRs rs acc) :
+    (entries.foldl mergeEntry acc).tensorAccesses =
+      entries.foldl (fun a er => mergeT a er.tensorAccesses) acc.tensorAccesses ∧
+    (entries.foldl mergeEntry acc).rankVariables =
+      entries.foldl (fun a er => mergeT a er.rankVariables) acc.rankVariables := by
+  induction entries generalizing acc with
+  | nil => exact ⟨rfl, rfl⟩
+  | cons er rest ih =>
+    obtain ⟨h1, h2, h3⟩ := mergeEntry_kindsDisjoint hkd (hsub er (by simp)) hacc
+    have := ih (fun x hx => hsub x (List.mem_cons_of_mem _ hx)) (mergeEntry acc er) h3
     simp only [List.foldl_cons]
-    by_cases hd : er.name = "default"
-    · have h1 : (er.name != "default") = false := by simp [hd]
-      have h2 : (er.name == "default") = true := by simp [hd]
-      simp only [h1, Bool.false_eq_true, if_false]
-      have := ih { acc with tensorAccesses := mergeInto acc.tensorAccesses er.tensorAccesses,
-                            rankVariables := mergeInto acc.rankVariables er.rankVariables }
-      simp only at this
-      rw [this.1, this.2]
-      simp [topT, topR, List.filter_cons, h2, mergeInto_append]
-    · have h1 : (er.name != "default") = true := by simp [hd]
-      have h2 : (er.name == "default") = false := by simp [hd]
-      simp only [h1, if_true]
-      have := ih acc
-      simp only at this
-      rw [this.1, this.2]
-      simp [topT, topR, List.filter_cons, h2]
+    rw [this.1, this.2, h1, h2]
+    exact ⟨rfl, rfl⟩
 
-theorem getRenamesForEinsum_default (rs : List EinsumRename) (n : Name) :
-    (getRenamesForEinsum rs n).tensorAccesses = dedupRenames (topT rs "default") ∧
-    (getRenamesForEinsum rs n).rankVariables = dedupRenames (topR rs "default") := by
-  have := getRenames_fold rs { name := n, tensorAccesses := [], rankVariables := [] }
-  simp only [mergeInto_nil_left] at this
-  simpa [getRenamesForEinsum, strInEinsumRenameList] using this
+theorem getRenames_kindsDisjoint {rs : List EinsumRename} (hkd : KindsDisjoint rs) (e : Name) :
+    dedupRenames (getRenamesForEinsum rs e).tensorAccesses =
+      dedupRenames (topT rs e ++ topT rs "default") ∧
+    dedupRenames (getRenamesForEinsum rs e).rankVariables =
+      dedupRenames (topR rs e ++ topR rs "default") := by
+  have hfold := foldl_mergeEntry_kindsDisjoint hkd
+    (rs.filter (fun er => er.name == e) ++ rs.filter (fun er => er.name == "default"))
+    (by intro er her
+        rcases List.mem_append.mp her with h | h <;> exact (List.mem_filter.mp h).1)
+    { name := e, tensorAccesses := [], rankVariables := [] }
+    ⟨by simp, by simp⟩
+  simp only [getRenamesForEinsum, ← List.foldl_append]
+  rw [hfold.1, hfold.2, dedupRenames_foldl_mergeT, dedupRenames_foldl_mergeT]
+  simp [topT, topR, List.flatMap_append]
 
-theorem effectiveRenames_eq (rs : List EinsumRename) (e : Einsum) :
-    effectiveRenames rs e =
-      mergeInto (mergeInto e.renames (dedupRenames (topT rs "default")))
-        (dedupRenames (topR rs "default")) := by
-  simp only [effectiveRenames, (getRenamesForEinsum_default rs "default").1,
-    (getRenamesForEinsum_default rs "default").2]
+theorem mergeInto_mergeInto_eq {l : List Rename} (hnd : (l.map (·.name)).Nodup) (a b : List Rename) :
+    mergeInto (mergeInto l a) b = dedupRenames (l ++ (a ++ b)) := by
+  rw [← mergeInto_append, mergeInto_eq, dedupRenames_append l, dedupRenames_of_nodup hnd]
 
 end AFV.Renames
